@@ -53,6 +53,10 @@ class Infeasible(Exception):
     pass
 
 
+class StopRun(Exception):
+    """canary mode: the expected obligation failed, nothing more to learn."""
+
+
 EXC_PARENTS = {
     'ValueError': 'Exception', 'KeyError': 'LookupError', 'IndexError': 'LookupError',
     'LookupError': 'Exception', 'TypeError': 'Exception', 'AssertionError': 'Exception',
@@ -389,7 +393,8 @@ class Engine:
     SOLVER_TIMEOUT_MS = 20000
 
     def __init__(self, repo, schema=None, summaries=None, inline=(), loop_specs=None,
-                 unit='', fn_override=None):
+                 unit='', fn_override=None, canary_expect=None):
+        self.canary_expect = canary_expect
         self.repo = repo
         self.schema = schema or {}
         self.summaries = summaries or {}
@@ -422,6 +427,7 @@ class Engine:
             self.frames = []
             self._fresh_ids = set()
             self.trace = []
+            self.decided = {}
             self.fmaps = {}
             reset_names()
             from . import builtins as _B
@@ -440,9 +446,15 @@ class Engine:
                 work.append(alt)
         return self.obligations
 
+    def run_catching(self, thunk):
+        try:
+            return self.run(thunk)
+        except StopRun:
+            return self.obligations
+
     def feasible(self, extra):
         s = z3.Solver()
-        s.set('timeout', 1500)
+        s.set('timeout', 400)
         for p in self.pc:
             s.add(p)
         s.add(extra)
@@ -464,10 +476,20 @@ class Engine:
             return True
         if z3.is_false(c):
             return False
+        # a condition decided before on this path (syntactically) needs no solver call
+        key = c.sexpr()
+        known = self.decided.get(key)
+        if known is not None:
+            return known
+        if z3.is_not(c):
+            k2 = self.decided.get(c.arg(0).sexpr())
+            if k2 is not None:
+                return not k2
         if self.pos < len(self.decisions):
             d = self.decisions[self.pos]
             self.pos += 1
             self.pc.append(c if d else z3.Not(c))
+            self.decided[key] = d
             return d
         ft = self.feasible(c)
         ff = self.feasible(z3.Not(c))
@@ -476,16 +498,19 @@ class Engine:
             self.decisions.append(True)
             self.pos += 1
             self.pc.append(c)
+            self.decided[key] = True
             return True
         if ft:
             self.decisions.append(True)
             self.pos += 1
             self.pc.append(c)
+            self.decided[key] = True
             return True
         if ff:
             self.decisions.append(False)
             self.pos += 1
             self.pc.append(z3.Not(c))
+            self.decided[key] = False
             return False
         raise Infeasible()
 
@@ -513,7 +538,7 @@ class Engine:
         t0 = time.time()
         r = s.check()
         backend = 'z3'
-        if r == z3.unknown:
+        if r == z3.unknown and self.canary_expect is None:
             r, backend = self.second_opinion(s, f)
         dt = time.time() - t0
         self.solver_time += dt
@@ -539,6 +564,9 @@ class Engine:
         if status != 'unsat':
             ob.smt2 = s.to_smt2()
         self.obligations.append(ob)
+        if self.canary_expect is not None and not ob.ok and \
+                any(name.startswith(e) for e in self.canary_expect):
+            raise StopRun()
         return ob.ok
 
     def second_opinion(self, s, f):
@@ -722,6 +750,10 @@ class Engine:
     def _field_array(self, name, args, rank, kind):
         Z = z3.IntSort()
         n0 = len(args)
+        length = None
+        if rank == 1:
+            length = SV(self.uf(name + '.len', *([Z] * n0 + [Z]))(*args), 'int')
+            self.assume(r_cmp('>=', length, 0))
 
         def mk(nm, srt):
             f = self.uf(nm, *([Z] * (n0 + rank) + [srt]))
@@ -729,10 +761,10 @@ class Engine:
         if kind == 'complex':
             gre, gim = mk(name + '.re', z3.RealSort()), mk(name + '.im', z3.RealSort())
             return SArr(lambda idx: CX(SV(gre(idx), 'real'), SV(gim(idx), 'real')),
-                        rank, kind, name)
+                        rank, kind, name, length)
         srt = {'real': z3.RealSort(), 'int': Z, 'bool': z3.BoolSort()}[kind]
         g = mk(name, srt)
-        return SArr(lambda idx, g=g, kind=kind: SV(g(idx), kind), rank, kind, name)
+        return SArr(lambda idx, g=g, kind=kind: SV(g(idx), kind), rank, kind, name, length)
 
     def use_field_map(self, cls, field, ty=None):
         ty = ty or self.field_type(cls, field)
